@@ -308,6 +308,15 @@ def run_property(pid, cfg, tier, seed, replay=None):
                 cases += [l for l in out.split("\n") if l]
         impl, model, oracle = evaluate(s, cases)
         st["evaluations"] = len(cases)
+        # input distribution: how many cases contain each construct (head atoms of S-expression cases, first word otherwise)
+        feats = {}
+        for c in cases:
+            heads = set(re.findall(r"\((\w[\w-]*)", c)) if c.startswith("(") else {c.split(" ", 1)[0]}
+            for h in heads:
+                feats[h] = feats.get(h, 0) + 1
+        st["input_constructs"] = dict(sorted(feats.items(), key=lambda kv: -kv[1])[:60])
+        st["case_length"] = {"min": min(map(len, cases), default=0), "max": max(map(len, cases), default=0),
+                             "mean": round(sum(map(len, cases)) / max(1, len(cases)), 1)}
         bad_oracle, bad_corr = [], []
         for c, i, m, o in zip(cases, impl, model, oracle):
             cls = i.split(" ")[0]
